@@ -154,22 +154,41 @@ def r2_trailing_slash(ctx):
         b = F.body(fn)
         cfg = cfg_of(b)
         sinks = _sinks(b) if fn in OPS else list(b.calls("utils::dir::remove_all"))
-        # every ok_or_else(name) -> `?`
-        guards = []
+        # where does each resolve_parent() result's name (an Option) get unwrapped?  Accepted idioms:
+        # ok_or_else(..)? / ok_or(..)? and a match/if-let on the Option itself.
+        none_cuts = {}     # resolve_parent call block -> (edges taken when the name is present, InvalidArgument on the None side?)
         for t in b.calls("std::option::Option::<T>::ok_or_else", "std::option::Option::<T>::ok_or"):
             o = T.origins_of_arg(t, 0)
             if o and all(x.kind == "call" and x.term.callee == "root::RootRef::<'_>::resolve_parent" and x.fpath[:2] == ("0", "1") for x in o):
                 r = result_edges(b, t)
-                # the closure must build InvalidArgument
                 inv = False
                 for a in T.origins_of_arg(t, 1):
                     if a.kind == "agg" and a.detail and a.detail.startswith("closure "):
                         cb = F.body(a.detail[len("closure "):])
                         inv = any(s.kind == "assign" and s.rv["k"] == "agg" and s.rv.get("variant") == "InvalidArgument" for blk in cb.blocks for s in blk.stmts)
-                guards.append((t, r, inv, {x.term.bb for x in o}))
+                    if a.kind == "agg" and a.detail == "error::ErrorImpl::InvalidArgument":
+                        inv = True
+                if r is not None and r["kind"] == "try":
+                    for x in o:
+                        none_cuts.setdefault(x.term.bb, []).append(([e for e in r["all_ok"]], inv))
+        for blk in b.blocks:
+            if blk.cleanup or blk.term.kind != "switch":
+                continue
+            for i, st in enumerate(blk.stmts):
+                if st.kind == "assign" and st.rv["k"] == "discr":
+                    pl = Place(st.rv["p"])
+                    if not b.local_tys[pl.local].startswith("std::option::Option<&std::path::Path>") and "Option<&" not in b.local_tys[pl.local]:
+                        continue
+                    o = T.origins(b, blk.idx, i, pl)
+                    if o and all(x.kind == "call" and x.term.callee == "root::RootRef::<'_>::resolve_parent" and x.fpath[:2] == ("0", "1") for x in o):
+                        some = [e for e in cfg.succ.get(blk.idx, []) if e.label == ("sw", 1)]
+                        none = [e for e in cfg.succ.get(blk.idx, []) if e.label != ("sw", 1)]
+                        nr = cfg.edge_targets_reachable(none)
+                        inv = any(s2.kind == "assign" and s2.rv["k"] == "agg" and s2.rv.get("variant") == "InvalidArgument" for x2 in nr for s2 in b.blocks[x2].stmts)
+                        for x in o:
+                            none_cuts.setdefault(x.term.bb, []).append((some, inv))
         for n, s in enumerate(sinks):
             key = "%s:%s:%d" % (fn_key(b), s.callee.split("::")[-1], n)
-            # which resolve_parent calls feed this sink's names
             need = set()
             for i in range(len(s.args)):
                 for o in T.origins_of_arg(s, i):
@@ -178,15 +197,15 @@ def r2_trailing_slash(ctx):
             okall = True
             why = ""
             for rpbb in need:
-                gs = [g for g in guards if rpbb in g[3] and g[1] is not None and g[1]["kind"] == "try"]
+                gs = none_cuts.get(rpbb, [])
                 if not gs:
-                    okall, why = False, "name from resolve_parent@bb%d is used without the None -> error conversion" % rpbb
+                    okall, why = False, "name from resolve_parent@bb%d is used without a None -> error conversion" % rpbb
                     break
-                cut = [e.key() for g in gs for e in g[1]["all_ok"]]
+                cut = [e.key() for (edges, _inv) in gs for e in edges]
                 if s.bb in cfg.reachable(cfg.entry, cut_edges=cut):
                     okall, why = False, "sink reachable when the final component is missing (trailing slash)"
                     break
-                if not all(g[2] for g in gs):
+                if not all(inv for (_e, inv) in gs):
                     okall, why = False, "missing final component does not produce InvalidArgument"
                     break
             if not need:
@@ -352,6 +371,70 @@ def r4_create_file(ctx):
     return out
 
 
+def _flags_for_variant(ctx, body, param_local, vi):
+    """unlinkat flag constants reaching the sink when the enum parameter has variant index vi: walk the CFG
+    taking, at every switch on the parameter's discriminant, the edge for vi and, at `?` switches, the
+    Continue edge."""
+    T = ctx.tracer
+    cfg = cfg_of(body)
+    bb = cfg.entry
+    visited = []
+    steps = 0
+    while steps < 400:
+        steps += 1
+        visited.append(bb)
+        blk = body.blocks[bb]
+        t = blk.term
+        es = cfg.succ.get(bb, [])
+        if t.kind == "switch":
+            d = Operand(t.raw["d"])
+            onparam = False
+            if d.place is not None:
+                for o in T.origins_of_operand(body, bb, len(blk.stmts), d):
+                    if o.kind == "expr" and o.stmt is not None and o.stmt.rv["k"] == "discr":
+                        pl = o.stmt.rv_place()
+                        if pl is not None and pl.local == param_local:
+                            onparam = True
+            if onparam:
+                nxt = [e for e in es if e.label == ("sw", vi)] or [e for e in es if e.label == ("sw", "otherwise")]
+            else:
+                # a switch on something else (a `?`, the Option holding the name): take the edge that can still reach the sink
+                sinks_ = [c.bb for c in body.calls("syscalls::unlinkat")]
+                cand = [e for e in es if any(sb in cfg.reachable(e.dst) for sb in sinks_)]
+                nxt = cand[:1] if len(cand) == 1 else ([e for e in es if e.label == ("sw", 0)] or es[:1])
+        else:
+            nxt = es[:1]
+        if t.kind == "call" and t.callee == "syscalls::unlinkat":
+            vals = set()
+            bits = shared(ctx)[0].bits_of(body.path)
+            for o in T.origins_of_arg(t, 2):
+                site = None
+                if o.kind == "const":
+                    vals.add(o.const_int())
+                    continue
+                if o.kind == "call" and o.term.callee.endswith("::empty"):
+                    if o.term.bb in visited:
+                        vals.add(0)
+                    continue
+            # constants assigned on the visited path only
+            res = set()
+            for o in T.origins_of_arg(t, 2):
+                if o.kind == "const":
+                    # find the assigning statement's block
+                    for vb in visited:
+                        for st in body.blocks[vb].stmts:
+                            if st.kind == "assign" and st.rv["k"] == "use" and st.rv_operands() and st.rv_operands()[0].is_const and \
+                               "AtFlags" in (st.rv_operands()[0].const.get("ty") or "") and st.rv_operands()[0].int_value() == o.const_int():
+                                res.add(o.const_int())
+                elif o.kind == "call" and o.term.callee.endswith("::empty") and o.term.bb in visited:
+                    res.add(0)
+            return res
+        if not nxt or t.kind == "ret":
+            return set()
+        bb = nxt[0].dst
+    return set()
+
+
 def r5_flags(ctx):
     F = ctx.facts
     T = ctx.tracer
@@ -365,32 +448,14 @@ def r5_flags(ctx):
             out.append(holds("C14.R5", "rename:flags", t.where(), "RenameFlags passed unchanged"))
         else:
             out.append(violated("C14.R5", "rename:flags", t.where(), "rename flags altered: %r" % v))
-    # remove_dir <-> AT_REMOVEDIR, remove_file <-> 0
+    # remove_dir <-> AT_REMOVEDIR, remove_file <-> 0 : specialise remove_inode on each variant of its parameter
     rb = F.body("root::RootRef::<'_>::remove_inode")
     adt = F.adts.get("root::RemoveInodeType")
     vn = [v["name"] for v in adt["variants"]] if adt else []
-    cfg = cfg_of(rb)
     table = {}
-    for blk in rb.blocks:
-        if blk.cleanup or blk.term.kind != "switch":
-            continue
-        isd = any(s.kind == "assign" and s.rv["k"] == "discr" and "RemoveInodeType" in rb.local_tys[Place(s.rv["p"]).local] for s in blk.stmts)
-        if not isd:
-            continue
-        for e in cfg.succ.get(blk.idx, []):
-            if e.label[1] == "otherwise":
-                continue
-            name = vn[e.label[1]] if e.label[1] < len(vn) else str(e.label[1])
-            # the value assigned to the flags local on this arm
-            tb = rb.blocks[e.dst]
-            for s in tb.stmts:
-                if s.kind == "assign" and s.rv["k"] == "use":
-                    op = Operand(s.rv["a"])
-                    if op.is_const and op.int_value() is not None:
-                        table[name] = op.int_value()
-            if tb.term.kind == "call" and tb.term.callee.endswith("::empty"):
-                table[name] = 0
-    want = {"Regular": 0, "Directory": AT_REMOVEDIR}
+    for vi, name in enumerate(vn):
+        table[name] = _flags_for_variant(ctx, rb, 3, vi)
+    want = {"Regular": {0}, "Directory": {AT_REMOVEDIR}}
     if table == want:
         out.append(holds("C14.R5", "remove_inode:flag-table", rb.where(), "Regular->0, Directory->AT_REMOVEDIR"))
     else:
